@@ -86,13 +86,31 @@ class G(object):
             d = {"type": "CircularRegion", "id": rid, "cx": cx, "cy": cy, "r": r2(r.uniform(2, 25), 1)}
             if r.random() < 0.03:
                 d["r"] = -d["r"]      # a client can send it; such a circle excludes nothing
+        if d["type"] == "RectangularRegion" and r.random() < 0.02:
+            d[r.choice(["x1", "y1", "x2", "y2"])] = float("nan")   # JSON NaN passes float(): excludes nothing
         return d
 
     def norm(self, d):
         from .models import norm_region
         return norm_region(d)
 
+    @staticmethod
+    def finite(reg):
+        """Stand-in with finite edges for aiming at a rectangle that has a not-a-number edge."""
+        if reg["type"] != "RectangularRegion" or all(reg[k] == reg[k] for k in ("x1", "y1", "x2", "y2")):
+            return reg
+        q = dict(reg)
+        for lo, hi in (("x1", "x2"), ("y1", "y2")):
+            if q[lo] != q[lo] and q[hi] != q[hi]:
+                q[lo], q[hi] = 80.0, 120.0
+            elif q[lo] != q[lo]:
+                q[lo] = q[hi] - 30.0
+            elif q[hi] != q[hi]:
+                q[hi] = q[lo] + 30.0
+        return q
+
     def point_in(self, reg):
+        reg = self.finite(reg)
         r = self.r
         if reg["type"] == "RectangularRegion":
             w, h = reg["x2"] - reg["x1"], reg["y2"] - reg["y1"]
@@ -102,6 +120,7 @@ class G(object):
         return (r2(reg["cx"] + q * math.cos(a)), r2(reg["cy"] + q * math.sin(a)))
 
     def point_border(self, reg):
+        reg = self.finite(reg)
         r = self.r
         if reg["type"] == "RectangularRegion":
             side = r.randrange(4)
@@ -118,6 +137,7 @@ class G(object):
                 (reg["cx"], reg["cy"] + reg["r"]), (reg["cx"], reg["cy"] - reg["r"])][side]
 
     def point_beside(self, reg):
+        reg = self.finite(reg)
         r = self.r
         off = r.choice([0.01, 0.05, 0.3, 1.0])
         if reg["type"] == "RectangularRegion":
